@@ -389,10 +389,7 @@ class Mirror:
                 io = self.io_of(sp["id"])
                 if io["kind"] == "module":
                     return "sheet_on_module"   # ModuleData has no sheet property: plain attribute assignment
-                if o["sh"] is None and len(io["specs"]) > 1:
-                    return "sheet_none"
-                if o["sh"] is None and sp["sheet"] is not None and io["kind"] == "excel":
-                    return "sheet_to_none"     # read_args keeps sheet_name=None: read_excel returns a dict
+                # sheet_none / sheet_to_none are repaired in /repo: spec.sheet = None is generated
                 if o["sh"] in (8, 9):
                     return "emptysheet_or_abspath"
         if k == "delref" and (m, o["s"], o["n"]) in self.cells:
